@@ -253,3 +253,38 @@ theorem foldCmp_or (ths : List Rat) : ∀ (vals : List (Option Rat)) (idx : Nat)
       · rintro ⟨a, c, b⟩
         exact ⟨⟨a, c v ths[idx] rfl (List.getElem?_eq_getElem hidx)⟩, b⟩
 end TV.Split
+
+namespace TV.Split
+variable {β : Type}
+
+theorem getLast?_cons' (o : β) (rest : List β) :
+    (o :: rest).getLast? = if rest = [] then some o else rest.getLast? := by
+  cases rest with
+  | nil => rfl
+  | cons p ps => simp [List.getLast?_cons_cons]
+
+/-- the current piece at the end of the loop is empty exactly when nothing was scanned into an empty piece, or the
+last observation scanned is marked -/
+theorem go_cur_nil (mk : β → Bool) (l : List β) (cur : List β) (acc : List (List β)) (st : Bool) :
+    (go (tag mk l) cur acc st).2.1 = [] ↔
+      (l = [] ∧ cur = []) ∨ (∃ o, l.getLast? = some o ∧ mk o = true) := by
+  induction l generalizing cur acc st with
+  | nil => simp [tag, go]
+  | cons o rest ih =>
+    simp only [tag, List.map_cons, go]
+    rw [getLast?_cons']
+    simp only [tag] at ih
+    cases hm : mk o with
+    | true =>
+      simp only [if_true]
+      rw [ih]
+      by_cases hr : rest = []
+      · subst hr; simp [hm]
+      · simp [hr]
+    | false =>
+      simp only [Bool.false_eq_true, if_false]
+      rw [ih]
+      by_cases hr : rest = []
+      · subst hr; simp [hm]
+      · simp [hr]
+end TV.Split
